@@ -342,9 +342,108 @@ def r18_4(ctx, R, memo):
     ctx.floor("R18.4", "ordered-poll_next", n, 2)
 
 
+def r18_5(ctx, R):
+    ctx.rule("R18.5", "who may shrink the groups vector: outside poll_next (R18.3) and the constructors, a function of an unbounded "
+                      "collection that removes groups must keep the last one -- the largest allocation, the one `push` doubles from. "
+                      "Decided by replaying the vector operations of every loop-free return path on lists of 2..4 group identities "
+                      "(truncate / clear / pop / remove / swap_remove / swap / push of a removed group, indices evaluated over the "
+                      "list's length); reported only where the replay shows the last group gone while others existed (an operation "
+                      "the replay cannot follow, e.g. `retain` with a closure, is left undecided)")
+    from groups import _eval_nc, _NoVal
+    from lib_flow import sensitive_paths
+    UNB = r"(futures_unordered::FuturesUnordered|merge_unbounded::MergeUnbounded)"
+    loops = {b.path for b in group_loop_fns(ctx)}
+    n = 0
+    for b in ctx.facts.fn_bodies():
+        if b.kind == "Closure" or b.path in loops or not re.search(r"^<?%s(::<|<| )" % UNB, b.path):
+            continue
+        if re.match(r"%s<" % UNB, b.locals[0] or ""):
+            continue
+        ops = {}
+        for bb, t, fn in direct_sites(b, r"alloc::vec::Vec::<.*>::(truncate|clear|pop|remove|swap_remove|push|drain|retain|split_off|dedup\w*)$|core::slice::<impl \[T\]>::swap$"):
+            ops[bb] = ((fn_name(fn) or "").split("::")[-1], t)
+        if not any(k in ("truncate", "clear", "pop", "remove", "swap_remove", "drain", "split_off") for k, _ in ops.values()):
+            continue
+        fl = ctx.flow(b)
+        # the vector operated on must be the groups vector
+        def on_groups(t):
+            x = strip_refs(fl.operand_expr(t["args"][0]))
+            for c in [x] + list(expr_calls(x)):
+                pass
+            return ".groups" in repr(x)
+        if not any(on_groups(t) for _, t in ops.values()):
+            continue
+        n += 1
+        bad = None
+        try:
+            for kind, path, know in sensitive_paths(b, fl, 1):
+                if kind != "return":
+                    continue
+                for size in (2, 3, 4):
+                    lst = list(range(size))
+                    removed = {}
+                    unknown = False
+                    popped = {}          # pop site -> the variant its result must have had on this replay
+                    for j_, bb in enumerate(path):
+                        # a path that takes the `None` arm of a pop that (on this replay) returned Some is not this replay's path
+                        if j_ + 1 < len(path):
+                            for lab in fl.edge_labels(bb).get(path[j_ + 1], []):
+                                if lab[0] == "variant" and strip_refs(lab[1])[0] == "call" and strip_refs(lab[1])[3] in popped \
+                                        and lab[2] in ("Some", "None") and lab[2] != popped[strip_refs(lab[1])[3]]:
+                                    unknown = True
+                        if unknown:
+                            break
+                        if bb not in ops or not on_groups(ops[bb][1]):
+                            continue
+                        k, t = ops[bb]
+                        def ev(a):
+                            return int(_eval_nc(fl.operand_expr(a), len(lst), 0, "<no cursor>"))
+                        try:
+                            if k == "clear":
+                                lst = []
+                            elif k == "truncate":
+                                lst = lst[:ev(t["args"][1])]
+                            elif k == "pop":
+                                popped[bb] = "Some" if lst else "None"
+                                if lst:
+                                    removed[bb] = lst.pop()
+                            elif k == "remove":
+                                removed[bb] = lst.pop(ev(t["args"][1]))
+                            elif k == "swap_remove":
+                                i = ev(t["args"][1])
+                                removed[bb] = lst[i]
+                                lst[i] = lst[-1]
+                                lst.pop()
+                            elif k == "swap":
+                                i, j = ev(t["args"][1]), ev(t["args"][2])
+                                lst[i], lst[j] = lst[j], lst[i]
+                            elif k == "push":
+                                v = fl.operand_expr(t["args"][-1])
+                                src = [c[3] for c in [v] + list(expr_calls(v)) if c[0] == "call" and c[3] in removed]
+                                lst.append(removed[src[0]] if src else 100 + len(lst))
+                            else:
+                                unknown = True
+                        except (_NoVal, IndexError, TypeError, ValueError):
+                            unknown = True
+                        if unknown:
+                            break
+                    if not unknown and (size - 1) not in lst and len(lst) < size:
+                        bad = (path, size, lst)
+                        break
+                if bad:
+                    break
+        except RuntimeError:
+            pass
+        ctx.ob("R18.5", b, "shrinking-keeps-the-largest-group", bad is None, d_loc(b),
+               "replayed on 2..4 groups: the last group is kept" if bad is None else
+               "with %d groups the function leaves %s: the last (largest) group is dropped" % (bad[1], bad[2]), path=bad[0] if bad else None)
+    ctx.ob("R18.5", "<crate>", "group-shrinking functions outside poll_next examined", True, "", "%d" % n)
+
+
 def run(ctx):
     R = roles(ctx)
     memo = {}
+    r18_5(ctx, R)
     r18_1(ctx, R, memo)
     r18_2(ctx, R, memo)
     r18_3(ctx, R)
